@@ -3,6 +3,7 @@ from engine.facts import CannotDecide, callee_is, path_matches, strip_generics, 
 from engine import cfg
 from .common import (reachable_local_fns, norm_path, guarded_by_variant, guarded_by_bool, cmp_facts, SWAP, result_of, in_module)
 
+EXTRA_CONFIGS = ('default', 'tokio1', 'serde1', 'serde-transport')   # feature configurations re-analysed in the thorough tier
 META = {
     'level': 'other',
     'technique': 'static comparison-fact and edge-guard rules over MIR of MaxChannelsPerKey; type-level ownership query (Arc in channel, Weak in map); Drop provenance',
